@@ -38,7 +38,8 @@ RULE = ("programs of the core language, structured profile (with-blocks, start_t
         "MemoryLogger; per program: of_type for every action type present and one absent, LoggedMessage.of_type for every message "
         "type and always for the empty type (1 message in 10 is logged untyped), 6-14 assertHasAction / assertHasMessage expectations (matching subsets, perturbed value, missing key, wrong outcome, "
         "absent key expected as None / 0 / empty string / False, present key expected as None, the fields of a later entry of the same type); about 1 logged "
-        "field value in 8 is None; in 15% of the programs one or two actions are started explicitly and never finished (the log a "
+        "field value in 8 is None; 1 untyped action in 5 adds a success field (1 in 10 a start field) named exception / reason / status "
+        "/ succeeded; in 15% of the programs one or two actions are started explicitly and never finished (the log a "
         "test sees while an action is running); type arguments alternate between names and ActionType / MessageType objects, empty "
         "expectations between {}, None and the default; non-trivial = log with depth >= 2 and (>= 2 tasks or a type with >= 2 "
         "entries); distinct by canonical hash of the program")
@@ -172,8 +173,29 @@ def leave_open(rng, prog):
         block[i:i + 1] = [dict(op="startAs", x=x, task=s["task"], spec=s["spec"]), dict(op="inContext", x=x, body=s["body"])]
 
 
+CLASH = ["exception", "reason", "status", "succeeded"]
+
+
+def clash_fields(rng, prog):
+    """Untyped actions sometimes get success fields (and start fields) named like the fields of a failed action's end
+    message - `exception`, `reason` (a retry wrapper recording the error it swallowed) - or like the outcome itself."""
+    for s in prog:
+        if s.get("op") == "with" and s["spec"].get("sers") is None:
+            if rng.random() < 0.2:
+                name = rng.choice(CLASH)
+                s["body"].insert(0, dict(op="addSuccess", x=None, fs=[[name, rng.choice([{"s": "ValueError"}, {"s": "boom"}, {"n": 0}, {"z": None}])]]))
+            if rng.random() < 0.1:
+                name = rng.choice(CLASH)
+                if name not in [f[0] for f in s["spec"]["fields"]]:
+                    s["spec"]["fields"].append([name, rng.choice([{"s": "KeyError"}, {"n": 1}])])
+        for k in ("body", "handler"):
+            if k in s:
+                clash_fields(rng, s[k])
+
+
 def gen_program(rng):
     case = sysgen.gen_case(rng, PROFILE)
+    clash_fields(rng, case["prog"])
     untyped_messages(rng, case["prog"])
     if rng.random() < 0.15:
         leave_open(rng, case["prog"])
